@@ -262,7 +262,124 @@ def goal_conjuncts(goal):
     return out
 
 
-def solve(pc, goal, rlimit=DEFAULT_RLIMIT, use_cvc5=False, max_refine=8):
+def ite_conditions(fs, limit=60):
+    out = {}
+    seen = set()
+    stack = list(fs)
+    while stack and len(out) < limit:
+        t = stack.pop()
+        i = t.get_id()
+        if i in seen:
+            continue
+        seen.add(i)
+        if z3.is_app_of(t, z3.Z3_OP_ITE):
+            c = t.arg(0)
+            out.setdefault(c.get_id(), c)
+        stack.extend(t.children())
+    return list(out.values())
+
+
+def has_ite(t):
+    seen = set()
+    stack = [t]
+    while stack:
+        u = stack.pop()
+        i = u.get_id()
+        if i in seen:
+            continue
+        seen.add(i)
+        if z3.is_app_of(u, z3.Z3_OP_ITE):
+            return True
+        stack.extend(u.children())
+    return False
+
+
+def resolve_ites(fs, rlimit=300000):
+    """decide If-conditions that are determined by the If-free formulas (premises; one cheap
+    solver query each, unknown = leave alone) and substitute them in the *other* formulas
+    only.  Equivalence preserving: premises are kept verbatim and entail the replaced
+    condition."""
+    premises = [f for f in fs if not has_ite(f)]
+    targets = [f for f in fs if has_ite(f)]
+    if not targets or not premises:
+        return fs
+    conds = ite_conditions(targets)
+    s = z3.Solver()
+    s.set('rlimit', rlimit)
+    s.add(*premises)
+    subs = []
+    for c in conds:
+        s.push()
+        s.add(z3.Not(c))
+        r = s.check()
+        s.pop()
+        if r == z3.unsat:
+            subs.append((c, z3.BoolVal(True)))
+            continue
+        s.push()
+        s.add(c)
+        r = s.check()
+        s.pop()
+        if r == z3.unsat:
+            subs.append((c, z3.BoolVal(False)))
+    if not subs:
+        return fs
+    return premises + [z3.simplify(z3.substitute(f, *subs)) for f in targets]
+
+
+def uf_args(fs):
+    found = collect(fs, [pow2_f, bitlen_f])
+    out = {}
+    for grp in found.values():
+        for t in grp.values():
+            a = t.arg(0)
+            if not z3.is_int_value(a):
+                out.setdefault(a.get_id(), a)
+    return list(out.values())
+
+
+def merge_equal_args(fs, rlimit=400000, max_args=40):
+    """arguments of pow2/bitlen that the If-free premises force to be equal are rewritten to a
+    common representative inside the other formulas (so that structurally equal sub-formulas
+    of an assumed callee contract and of the goal become syntactically equal).  Candidates come
+    from one model of the premises; each merge is justified by an unsat query."""
+    premises = [f for f in fs if not has_ite(f)]
+    targets = [f for f in fs if has_ite(f)]
+    if not targets or not premises:
+        return fs
+    args = uf_args(fs)
+    if len(args) < 2 or len(args) > max_args:
+        return fs
+    s = z3.Solver()
+    s.set('rlimit', rlimit)
+    s.add(*premises)
+    if s.check() != z3.sat:
+        return fs
+    m = s.model()
+    groups = {}
+    for a in args:
+        v = m.eval(a, model_completion=True)
+        if z3.is_int_value(v):
+            groups.setdefault(v.as_long(), []).append(a)
+    subs = []
+    for v, grp in groups.items():
+        if len(grp) < 2:
+            continue
+        grp.sort(key=lambda t: (term_size(t, 200), str(t)))
+        rep = grp[0]
+        for a in grp[1:]:
+            s.push()
+            s.add(a != rep)
+            r = s.check()
+            s.pop()
+            if r == z3.unsat:
+                subs.append((a, rep))
+    if not subs:
+        return fs
+    return premises + [z3.simplify(z3.substitute(f, *subs)) for f in targets]
+
+
+def solve(pc, goal, rlimit=DEFAULT_RLIMIT, use_cvc5=False, max_refine=40):
     """prove pc => goal.  A conjunctive goal is proved conjunct by conjunct (earlier
     conjuncts may be assumed for later ones).  status in proved / sat / unknown"""
     parts = goal_conjuncts(goal)
@@ -286,30 +403,62 @@ def solve(pc, goal, rlimit=DEFAULT_RLIMIT, use_cvc5=False, max_refine=8):
     return 'proved', total
 
 
-def solve1(pc, goal, rlimit=DEFAULT_RLIMIT, use_cvc5=False, max_refine=8):
+def fold_pow2(fs):
+    found = collect(fs, [pow2_f])
+    subs = []
+    for t in found['pow2'].values():
+        a = z3.simplify(t.arg(0))
+        if z3.is_int_value(a) and 0 <= a.as_long() <= 4096:
+            subs.append((t, z3.IntVal(1 << a.as_long())))
+    if not subs:
+        return fs
+    return [z3.simplify(z3.substitute(f, *subs)) for f in fs]
+
+
+SEEDS = [0, 7, 23, 101]
+
+
+def solve1(pc, goal, rlimit=DEFAULT_RLIMIT, use_cvc5=False, max_refine=40):
     """returns (status, info) with status in proved / sat / unknown"""
     fs = list(pc) + [z3.Not(goal)]
     if os.environ.get('PYVC_NOPRE') != '1':
         fs = preprocess(fs)
+        if not (len(fs) == 1 and z3.is_false(fs[0])):
+            fs2 = resolve_ites(fs)
+            if fs2 is not fs:
+                fs = preprocess(fs2)
+            fs3 = merge_equal_args(fs)
+            if fs3 is not fs:
+                fs = preprocess(fs3)
+            fs4 = fold_pow2(fs)
+            if fs4 is not fs:
+                fs = preprocess(fs4)
     ax = axioms_for(fs)
-    s = z3.Solver()
-    s.set('rlimit', rlimit)
-    s.set('timeout', int(os.environ.get('PYVC_TIMEOUT_MS', '120000')))
-    s.add(*fs)
-    s.add(*ax)
     t0 = time.time()
     info = {'solver': 'z3', 'axioms': len(ax)}
     allf = fs + ax
-    seen = set()
-    r = s.check()
-    rounds = 0
-    while r == z3.sat and rounds < max_refine:
-        m = s.model()
-        n = refine_with_model(s, allf, m, seen)
-        if n == 0:
-            break
-        rounds += 1
+    # deterministic portfolio: the same query under a fixed list of random seeds; the first
+    # definite answer wins (an unlucky heuristic choice must not turn into an alarm)
+    for attempt, seed in enumerate(SEEDS):
+        s = z3.Solver()
+        s.set('rlimit', rlimit)
+        s.set('timeout', int(os.environ.get('PYVC_TIMEOUT_MS', '60000')))
+        s.set('random_seed', seed)
+        s.add(*fs)
+        s.add(*ax)
+        seen = set()
         r = s.check()
+        rounds = 0
+        while r == z3.sat and rounds < max_refine:
+            m = s.model()
+            n = refine_with_model(s, allf, m, seen)
+            if n == 0:
+                break
+            rounds += 1
+            r = s.check()
+        info['attempts'] = attempt + 1
+        if r != z3.unknown:
+            break
     info['refine_rounds'] = rounds
     info['time_s'] = round(time.time() - t0, 4)
     try:
@@ -323,6 +472,11 @@ def solve1(pc, goal, rlimit=DEFAULT_RLIMIT, use_cvc5=False, max_refine=8):
         return 'proved', info
     if r == z3.sat:
         info['model'] = s.model()
+        if os.environ.get('PYVC_DUMP_SAT'):
+            import hashlib
+            txt = s.to_smt2()
+            with open(os.path.join(os.environ['PYVC_DUMP_SAT'], 'sat_%s.smt2' % hashlib.md5(txt.encode()).hexdigest()[:8]), 'w') as f:
+                f.write(txt)
         return 'sat', info
     info['reason'] = s.reason_unknown()
     if use_cvc5:
@@ -424,8 +578,13 @@ def verify_unit(target, enum_assign, opts=None):
                           props=ct.all_props)
             for name, fn, props in ct.ensures:
                 e = p.inline_spec(fn, [], {}, extra_env=pick_env(fn, env2))
+                goal = p2truthy(p, e)
+                for gap in ct.gaps:
+                    if name in gap['clauses']:
+                        gc = p.truthy(p.inline_spec(gap['cond'], [], {}, extra_env=pick_env(gap['cond'], env)))
+                        goal = z3.Or(gc, goal)
                 ob_st = st2.fork()
-                eng.oblig(ob_st, 'ensures', name, p2truthy(p, e), lineno, props=props)
+                eng.oblig(ob_st, 'ensures', name, goal, lineno, props=props)
                 # definitional constraints added while evaluating the clause live in st2.pc
         elif sig == RAISE:
             ename = val.name()
